@@ -48,14 +48,17 @@ def _run(case):
         m_, S_ = _cond.joint_moments(M[rc], b[rc], S[rc], mu[rx], Sig[rx])
         mus.append(m_)
         Sigs.append(S_)
-    ok, got = lib(fails, tag + ".evaluate_ln", lambda: j.evaluate_ln(J(z)))
-    if ok:
-        check(fails, tag + ":chain_rule", got, want, scale)
     mus, Sigs = np.stack(mus), np.stack(Sigs)
     kap = oracle.cond(Sigs)
     if np.any(kap > 1e6):
         fails.append(Failure("excluded:ill_conditioned_derived", "joint covariance cond > 1e6"))
         return fails
+    ok, got = lib(fails, tag + ".evaluate_ln", lambda: j.evaluate_ln(J(z)))
+    if ok:
+        # the joint is evaluated in information form: its natural scale includes |z|^2 * |Lambda|
+        Lj = oracle.inv_spd(Sigs)
+        nat = 0.5 * np.einsum("nd,rde,ne->rn", np.abs(z), np.abs(Lj), np.abs(z)) + np.einsum("rd,rde,ne->rn", np.abs(mus), np.abs(Lj), np.abs(z))
+        check(fails, tag + ":chain_rule", got, want, scale + nat * np.maximum(1.0, kap)[:, None] ** 0.5)
     sn = np.abs(Sigs).max((1, 2))[:, None, None] * np.ones_like(Sigs)
     check(fails, tag + ":mu", np.asarray(j.mu), mus, 1 + np.abs(mus))
     check(fails, tag + ":Sigma", np.asarray(j.Sigma), Sigs, sn)
